@@ -168,8 +168,10 @@ func runC13(r *h.Run) {
 						}
 						v.Msg += " | " + c.Brief() + " inst=" + inst
 						v.Kind, v.Case, v.Unit = "c13", cj, w.Unit()
-						w.Report(*v)
-						return false
+						if w.Report(*v) {
+							return false
+						}
+						return !w.Stopped()
 					}
 				}
 				w.Sample(map[string]interface{}{"scaffold": u.sc.Name, "case": c.Brief(), "queries": len(qs), "modes": "both,inner,leaf,none"})
